@@ -108,7 +108,7 @@ def check(run, F, tier):
     run.cov_extra["flags"] = flags
 
     # ------------------------------------------------------------------ R1
-    r1 = run.rule("C15-R1", "armed flag mirrors the Reset/Cancel stream on every path (inductive invariant)", floor=60)
+    r1 = run.rule("C15-R1", "armed flag mirrors the Reset/Cancel stream on every path (inductive invariant)", floor=48)
     for n, ps in sorted(allp.items()):
         bad = {}
         for p in ps:
@@ -168,7 +168,7 @@ def check(run, F, tier):
             r2.ok(n, {"closing_paths": cnt})
 
     # ------------------------------------------------------------------ R3
-    r3 = run.rule("C15-R3", "send-side calls and setters never arm a timer while the connection may be Disconnected", floor=30)
+    r3 = run.rule("C15-R3", "send-side calls and setters never arm a timer while the connection may be Disconnected", floor=24)
     local = [f["name"] for f in sendh.values()] + ["set_pingreq_send_interval"]
     for n in sorted(local):
         bad = {}
@@ -236,7 +236,7 @@ def check(run, F, tier):
         r4.ok(key, conn.short(want))
 
     # ------------------------------------------------------------------ R5
-    r5 = run.rule("C15-R5", "server keep-alive refresh on every accepted packet (kinds a server receives), guarded by non-zero timeout", floor=20)
+    r5 = run.rule("C15-R5", "server keep-alive refresh on every accepted packet (kinds a server receives), guarded by non-zero timeout", floor=16)
     server_kinds = {"connect", "publish", "puback", "pubrec", "pubrel", "pubcomp", "subscribe", "unsubscribe", "pingreq", "auth"}
     for (ver, kind), f in sorted(recvh.items()):
         if kind not in server_kinds:
